@@ -337,6 +337,21 @@ let pipeline_case (c : string) (ora : string) : string =
           (match do_step (OpLine (bytes_of_hex toks.(1))) with
            | OutLine false -> results := "I ok" :: !results
            | _ -> results := "I PANIC" :: !results)
+        | "X" ->
+          (* events that did not come through the parser's validity check: in every label value the three characters
+             "!ff" stand for the byte 0xff *)
+          let s = !st in
+          let rec corrupt (v : byte list) = match v with
+            | X21 :: X66 :: X66 :: r -> Xff :: corrupt r
+            | b :: r -> b :: corrupt r
+            | [] -> [] in
+          (match line_to_events pf s.s_flags (bytes_of_hex toks.(1)) with
+           | Ok (evs, _) ->
+             let evs' = List.map (fun e -> { e with e_labels = List.map (fun (k, v) -> (k, corrupt v)) e.e_labels }) evs in
+             let ((m, x), p) = handle_events uni_word re_match cache_get cache_add s.s_mapper s.s_exp s.s_now evs' in
+             st := { s with s_mapper = m; s_exp = x };
+             results := (if p then "I PANIC" else "I ok") :: !results
+           | Panic -> results := "I PANIC" :: !results)
         | "A" -> ignore (do_step (OpAdvance (z_of_int (int_of_string toks.(1))))); results := "A" :: !results
         | "S" -> ignore (do_step OpSweep); results := "S" :: !results
         | "G" ->
